@@ -716,6 +716,9 @@ func (b *Block) getNumVoxels(labelIndex uint32) (labelVoxels uint64) {
 		return 0
 	}
 
+	// a sub-block can list the label index more than once (e.g., after MergeLabels), so mark every match.
+	matches := make([]bool, subBlockNumVoxels)
+
 	var indexPos uint32
 	var bitpos, subBlockNum int
 	var sx, sy, sz int32
@@ -738,11 +741,10 @@ func (b *Block) getNumVoxels(labelIndex uint32) (labelVoxels uint64) {
 				}
 
 				var found bool
-				var targetIndex uint16
 				for i := uint16(0); i < numSBLabels; i++ {
-					if b.SBIndices[indexPos] == labelIndex {
+					matches[i] = b.SBIndices[indexPos] == labelIndex
+					if matches[i] {
 						found = true
-						targetIndex = i
 					}
 					indexPos++
 				}
@@ -773,7 +775,7 @@ func (b *Block) getNumVoxels(labelIndex uint32) (labelVoxels uint64) {
 								index |= uint16(b.SBValues[bytepos+1])
 								index >>= uint(16 - bithead - bits)
 							}
-							if index == targetIndex {
+							if matches[index] {
 								labelVoxels++
 							}
 							bitpos += bits
